@@ -91,6 +91,7 @@ pub struct World {
     groups: BTreeMap<u64, Uid>,
     room_no: HashMap<Uid, u64>,
     rows: BTreeMap<u64, Uid>,
+    used_rows: HashSet<u64>,
     row_no: HashMap<Uid, u64>,
     person: String,
     conns: BTreeMap<u64, Conn>,
@@ -120,19 +121,25 @@ impl World {
         let events = EventService::new();
         let sub = events.subcribe().await;
         clock::set(1000);
-        let (svc, key, _) = GraphDatabaseService::start(APP, MODEL, &secret_of(OWN), &[7u8; 32], folder.clone(), &c, events)
+        let (svc, key, private_room) = GraphDatabaseService::start(APP, MODEL, &secret_of(OWN), &[7u8; 32], folder.clone(), &c, events)
             .await
             .expect("instance");
         assert_eq!(key, key_of(OWN), "identity derivation differs from the service's");
+        // room 0 is the instance's private room (the own user is its only member)
+        let mut rooms = BTreeMap::new();
+        let mut room_no = HashMap::new();
+        rooms.insert(0u64, private_room);
+        room_no.insert(private_room, 0u64);
         World {
             svc,
             own_key: key,
             events: sub,
             folder,
-            rooms: BTreeMap::new(),
+            rooms,
             groups: BTreeMap::new(),
-            room_no: HashMap::new(),
+            room_no,
             rows: BTreeMap::new(),
+            used_rows: HashSet::new(),
             row_no: HashMap::new(),
             person: String::new(),
             conns: BTreeMap::new(),
@@ -178,7 +185,8 @@ impl World {
                 }
                 Ok(_) => {}
                 Err(broadcast::error::TryRecvError::Empty) => tokio::time::sleep(Duration::from_millis(1)).await,
-                Err(_) => return Err("err:event-lagged".into()),
+                Err(broadcast::error::TryRecvError::Lagged(_)) => {}
+                Err(_) => return Err("err:event-closed".into()),
             }
         }
         let room = room.ok_or("err:no-event".to_string())?;
@@ -204,7 +212,12 @@ impl World {
         Ok(())
     }
     fn drain_events(&mut self) {
-        while self.events.try_recv().is_ok() {}
+        loop {
+            match self.events.try_recv() {
+                Ok(_) | Err(broadcast::error::TryRecvError::Lagged(_)) => {}
+                Err(_) => break,
+            }
+        }
     }
 
     pub async fn op(&mut self, kind: &str, kv: &Kv, stats: &mut Stats) -> String {
@@ -285,7 +298,7 @@ impl World {
             }
             "row" => {
                 let (id, r, t) = match (get_u(kv, "id"), get_u(kv, "r"), get_i(kv, "t")) {
-                    (Some(i), Some(r), Some(t)) if !self.rows.contains_key(&i) => (i, r, t),
+                    (Some(i), Some(r), Some(t)) if !self.used_rows.contains(&i) => (i, r, t),
                     _ => return "bad-op".into(),
                 };
                 let rid = match self.rooms.get(&r) {
@@ -304,8 +317,11 @@ impl World {
                     Ok(mq) => {
                         let n = &mq.mutate_entities[0].node_to_mutate;
                         self.rows.insert(id, n.id);
+                        self.used_rows.insert(id);
                         self.row_no.insert(n.id, id);
-                        self.person = n._entity.clone();
+                        if let Some(node) = &n.node {
+                            self.person = node._entity.clone();
+                        }
                         "ok".into()
                     }
                     Err(_) => "err:mutation".into(),
@@ -347,7 +363,10 @@ impl World {
                     return "bad-op".into();
                 }
                 match self.svc.delete("delete { Person { $s } }", Some(params(&[("s", base64_encode(&uid))]))).await {
-                    Ok(_) => "ok".into(),
+                    Ok(_) => {
+                        self.rows.remove(&id);
+                        "ok".into()
+                    }
                     Err(_) => "err:mutation".into(),
                 }
             }
